@@ -1,9 +1,13 @@
 """C12 - Results are invariant under the choice of length unit.
 
 1. TLC model-checks spec/MC_Laws (LAWS_MODE=C12): Rescale(k) / ScaleExc(a, m) behaviours from one base configuration per
-   source class (and TriangularMesh variants: flipped faces, tetrahedron, two parts, open) with observer classes
-   deep_in / face_in / face_out / edge / close / gen / far whose labels are verified exactly (LabelsOK).
-2. Every transition is instantiated at lattice unit 10^k m (same generic rigid motion G for both sides) and
+   source class, the TriangularMesh variants (flipped faces, tetrahedron, two parts, open; built through the constructor,
+   from_triangles, from_mesh, from_ConvexHull, to_TriangleCollection) and scenes of SEVERAL magnets evaluated in one field
+   call (two different meshes with the same number of faces, mesh next to cuboid, cuboid next to mesh), with observer classes
+   deep_in / face_in / face_out / edge / edge_ext / close / gen / far / in_one whose labels are verified exactly (LabelsOK;
+   in_one = strictly inside exactly one body at local coordinates that lie outside the shape of every other body).
+2. Every transition is instantiated at lattice unit 10^k m - one half of the plan - or m * 10^k m with a generic mantissa m
+   (coordinates that are not round numbers of metres), with the same generic rigid motion G for both sides, and
    getB/getH/getJ, the J-pattern (inside/outside) and the mesh status flags / reoriented faces are logged.
 3. spec/TV_Laws judges: decade shift of the observation = exponent table (magnets 0, currents -1, dipoles -3, J 0) * k,
    resp. = a for the excitation; mantissas equal within the tolerance of the distance class; inside/outside pattern and
